@@ -35,7 +35,7 @@ POOL = [
     'from .vpulses usepulses *\nregister q[2]\nprepare_all\nflip q[0]\nmeasure_all\n',
 ]
 EDGE = {'NUM': ['1.0e400', '-2.5e999', '1.5e-400', '-.0', '+.5', '0.1E+5'],
-        'INT': ['99999999999999999999999', '-0', '+2', '0002', '-36893488147419103232']}
+        'INT': ['99999999999999999999999', '-0', '+2', '0002', '-36893488147419103232', '9' * 5000]}   # (Python converts at most 4300 digits)
 PROC_CFG = 'SPECIFICATION Spec\nCONSTANTS\n MaxLen = %d\nINVARIANT HistoryIndependent\nINVARIANT Emit\n'
 
 
@@ -162,6 +162,10 @@ def texts_stage(rep, tier, wd, rng):
     rep.cov['executable_edge_loop_programs'] = len(progs)
     for p in progs:
         srcs.append(render.render_prog(p))
+    # (5) nesting far beyond what any program needs: 200 and 2000 levels of alternating blocks, 300 nested loops
+    for n in (100, 400):
+        srcs.append('register q[1]\n' + '{<' * n + 'g q[0]' + '>}' * n + '\n')
+    srcs.append('register q[1]\n' + 'loop 1 {' * 300 + 'g q[0]' + '}' * 300 + '\n')
     srcs = sorted(set(s for s in srcs if all(ord(ch) < 256 for ch in s)))
     cases = [{'id': 'text/%d' % n, 'src': s} for n, s in enumerate(srcs)]
     # witnesses of known findings (open and fixed) are replayed like any other text
